@@ -231,3 +231,35 @@ for _kind in ('log', 'param'):
     for _v2 in (True, False):
         for _L in ((3, 9, 30) if _v2 else (2, 9, 30)):
             _step_ignore(_kind, _v2, _L)
+
+
+# ------------------------------------------------------------------------------------------------ 3. element decoders, every shape that fits a packet
+
+MAX_NAMING = 25         # 30 payload bytes - command - 1-byte index - type - two NULs  (24 with the 2-byte index)
+
+
+def _decode(kind, total):
+    @contract('C03', 'decode.%s.len%02d' % (kind, total), [ELEMENT[kind] + '.__init__'],
+              clause='an item reply body  type | group | NUL | name | NUL  decodes to exactly the device entry: group and name (ISO-8859-1, any '
+                     'NUL-free bytes), C type and unpack format of the type code, access, extended flag, index as given; every type code of '
+                     'the peer table, every index 0..65535; group+name length %d in every split (lengths 0..%d together are all that fit a packet)' % (total, MAX_NAMING))
+    def k(c):
+        lg = c.choice('len_group', list(range(total + 1)))
+        ln = total - lg
+        c.int('t', 0, 255)
+        c.require(valid_type(kind, 't'))
+        c.int('i', 0, 65535)
+        c.bytes('g', lg), c.bytes('n', ln)
+        c.require('all(b != 0 for b in g) and all(b != 0 for b in n)')
+        c.snapshot('data', 'bytearray([t]) + g + bytes([0]) + n + bytes([0])')
+        c.call(ELEMENT[kind], c.get('i'), c.get('data'))
+        c.ensure('no-exception', 'raised is None')
+        c.snapshot('e', 'result')
+        for j, s in enumerate(element_spec(c, kind, 'e', 't', 'i', 'g', 'n')):
+            c.ensure('device-entry-%d' % j, s)
+    return k
+
+
+for _kind in ('log', 'param'):
+    for _total in range(MAX_NAMING + 1):
+        _decode(_kind, _total)
